@@ -132,6 +132,45 @@ def likelihood_chain(c, kind, m=2, n=2):
     c.eq('posterior_gradient_is_derivative_of_own_logd', post.gradient(x), c.grad_of(lambda v: post.logd(v), x), tol=1e-4)
 
 
+def reassignment_history(c, kind, n=3):
+    """gradient, then assign new parameter values to the SAME object, then gradient again: still the derivative of the
+    object's current log-density (no stale intermediate results survive a parameter change)"""
+    x = c.vec('x', n)
+    def check(d, tag):
+        g = d.gradient(x)
+        c.eq(f'{tag}:gradient_is_derivative_of_own_logd', g, c.grad_of(lambda v: d.logd(v), x), tol=1e-4)
+    if kind == 'Gaussian:cov':
+        d = Gaussian(c.vec('m', n), c.vec('v', n, pos=True)); check(d, 'fresh')
+        d.cov = c.vec('v2', n, pos=True); check(d, 'after_cov_reassigned')
+        d.mean = c.vec('m2', n); check(d, 'after_mean_reassigned')
+    elif kind == 'Gaussian:prec':
+        d = Gaussian(c.vec('m', n), prec=c.vec('v', n, pos=True)); check(d, 'fresh')
+        d.prec = c.real('p2', pos=True); check(d, 'after_prec_reassigned')
+    elif kind in ('GMRF', 'CMRF'):
+        from cuqi.distribution import GMRF, CMRF
+        geom = cuqi.geometry.Continuous1D(n)
+        if kind == 'GMRF': d = GMRF(c.vec('m', n), c.real('p', pos=True), geometry=geom)
+        else: d = CMRF(c.vec('m', n), c.real('p', pos=True), geometry=geom)
+        if c.sym: shims.symbolize_operators(d)
+        check(d, 'fresh')
+        if kind == 'GMRF': d.prec = c.real('p2', pos=True); check(d, 'after_prec_reassigned'); d.mean = c.vec('m2', n); check(d, 'after_mean_reassigned')
+        else: d.scale = c.real('p2', pos=True); check(d, 'after_scale_reassigned'); d.location = c.vec('m2', n); check(d, 'after_location_reassigned')
+    elif kind == 'Cauchy':
+        d = Cauchy(c.vec('m', n), c.vec('s', n, pos=True)); check(d, 'fresh')
+        d.scale = c.vec('s2', n, pos=True); check(d, 'after_scale_reassigned'); d.location = c.vec('m2', n); check(d, 'after_location_reassigned')
+    elif kind == 'conditional_GMRF':
+        from cuqi.distribution import GMRF
+        geom = cuqi.geometry.Continuous1D(n)
+        g0 = GMRF(np.zeros(n), lambda d: d, geometry=geom)
+        g1 = g0(d=c.real('d1', pos=True))
+        if c.sym: shims.symbolize_operators(g1)
+        check(g1, 'conditioned_once')
+        g2 = g1.__class__.__call__(g0, d=c.real('d2', pos=True))
+        if c.sym: shims.symbolize_operators(g2)
+        check(g2, 'conditioned_again_from_original')
+        check(g1, 'first_copy_unaffected')
+
+
 def userdefined(c, n=2):
     x = c.vec('x', n)
     a = c.vec('a', n)
@@ -172,5 +211,7 @@ def jobs(tier):
         J.append(Job(f'Likelihood.gradient:chain_rule:{kind}', lambda c, k=kind: likelihood_chain(c, k), 'Pbox',
                      ['cuqi.likelihood._likelihood:Likelihood._gradient', f'{D}._gaussian:Gaussian._gradient', 'cuqi.model._model:Model.gradient',
                       f'{D}._posterior:Posterior._gradient'], rtol=1e-4, timeout=300))
+    for kind in ('Gaussian:cov', 'Gaussian:prec', 'GMRF', 'CMRF', 'Cauchy', 'conditional_GMRF'):
+        J.append(Job(f'history:gradient_after_parameter_reassignment:{kind}', lambda c, k=kind: reassignment_history(c, k), 'Pbox', Dg, rtol=1e-4))
     J.append(Job('UserDefinedDistribution.gradient', userdefined, 'Pbox', [f'{D}._custom:UserDefinedDistribution.gradient']))
     return J
